@@ -166,15 +166,18 @@ inline void run_seq(const SeqProg &p) {
 
 // ================================================================ (b) threads
 struct Reader_ { uint8_t flavour; uint8_t yields; uint8_t mode; };      // flavour 0 coroutine, 1 blocking
-struct MtProg { uint8_t count; uint8_t batch_at; uint8_t pub_yields; uint8_t finish; std::vector<Reader_> rd; };   // finish 0 close, 1 destroy
+struct MtProg { uint8_t count; uint8_t batch_at; uint8_t pub_yields; uint8_t finish; std::vector<Reader_> rd; uint8_t second_pub; };   // finish 0 close, 1 destroy; second_pub: values published concurrently by a 2nd thread
 inline MtProg decode_mt(hz::Reader &r) {
     MtProg p; p.count = (uint8_t)(1 + r.mod(5)); p.batch_at = (uint8_t)r.mod(6); p.pub_yields = (uint8_t)r.mod(3); p.finish = (uint8_t)r.mod(2);
     unsigned n = 1 + r.mod(3);
     for (unsigned i = 0; i < n; i++) { Reader_ x; x.flavour = (uint8_t)r.mod(2); x.yields = (uint8_t)r.mod(3); x.mode = (uint8_t)(r.mod(4) == 0 ? 1 + r.mod(2) : 0); p.rd.push_back(x); }
+    p.second_pub = (uint8_t)(r.mod(3) == 0 ? 1 + r.mod(3) : 0);
     return p;
 }
 inline std::string describe_mt(const MtProg &p) {
-    hz::Desc d; d << "publisher thread publishes " << (unsigned)p.count << " values (batch of 2 at #" << (unsigned)p.batch_at << "), then " << (p.finish ? "destroys the publisher" : "close()") << "; subscriber threads:";
+    hz::Desc d; d << "publisher thread publishes " << (unsigned)p.count << " values (batch of 2 at #" << (unsigned)p.batch_at << ")";
+    if (p.second_pub) d << ", a second thread publishes " << (unsigned)p.second_pub << " values concurrently";
+    d << ", then " << (p.finish ? "the publisher is destroyed" : "close()") << "; subscriber threads:";
     for (auto &x : p.rd) d << " [" << (x.flavour ? "blocking next()" : "co_await next()") << ", " << modes[x.mode] << ", yield*" << (unsigned)x.yields << "]";
     return d.s;
 }
@@ -214,17 +217,40 @@ struct MtRun {
         for (size_t i = 0; i < prog.rd.size(); i++) subs.emplace_back(new Sub(*pub, (ST)prog.rd[i].mode));
         std::vector<std::thread> th;
         for (size_t i = 0; i < prog.rd.size(); i++) th.emplace_back([this, i] { reader_thread(i); });
-        std::thread pt([this, &prog] {
+        bool two = prog.second_pub != 0;
+        // one publisher: value == stream position.  Two publishers: thread p publishes p*1000+k (the stream
+        // order between the two is decided by the lock), the stream is closed after both are done
+        std::thread pt([this, &prog, two] {
             for (unsigned k = 0; k < prog.count; k++) {
                 hz::upoints(prog.pub_yields);
                 if (k == prog.batch_at) { std::vector<int> b{(int)total + 1, (int)total + 2}; total += 2; pub->publish(b.begin(), b.end()); }
                 else { total++; pub->publish((int)total); }
             }
             hz::upoints(prog.pub_yields);
-            if (prog.finish == 0) pub->close(); else pub.reset();
+            if (!two) { if (prog.finish == 0) pub->close(); else pub.reset(); }
         });
+        std::thread pt2;
+        if (two) pt2 = std::thread([this, &prog] { for (unsigned k = 0; k < prog.second_pub; k++) { hz::upoint(); pub->publish(1000 + (int)k + 1); } });
         pt.join();
+        if (two) { pt2.join(); if (prog.finish == 0) pub->close(); else pub.reset(); }
         for (auto &t : th) t.join();
+        if (two) {
+            for (size_t i = 0; i < got.size(); i++) {
+                auto &g = got[i];
+                int last[2] = {0, 0}; std::set<int> seen;
+                for (int v : g) {
+                    int pbl = v >= 1000 ? 1 : 0, k = v % 1000;
+                    HZ_CHECK(seen.insert(v).second, "subscriber %zu received value %d twice", i, v);
+                    HZ_CHECK(k > last[pbl], "subscriber %zu received value %d of publisher %d after its value %d (publisher order violated)", i, k, pbl, last[pbl]);
+                    HZ_CHECK(k >= 1 && k <= (pbl ? (int)prog.second_pub : (int)total), "subscriber %zu received %d which nobody published", i, v);
+                    last[pbl] = k;
+                }
+                if (prog.rd[i].mode == 0)
+                    HZ_CHECK((long)g.size() == total + prog.second_pub, "all_values subscriber %zu saw the end of the stream after %zu of %ld values although the queue is unlimited and it was never kicked", i, g.size(), total + prog.second_pub);
+            }
+            subs.clear(); pub.reset();
+            return;
+        }
         for (size_t i = 0; i < got.size(); i++) {
             auto &g = got[i];
             if (prog.rd[i].mode == 0) {
